@@ -2,6 +2,7 @@
 //! Every subcommand drives the PUBLIC API only and writes one ndjson event per call.
 mod drv_br;
 mod drv_c01;
+mod drv_call;
 mod drv_flow;
 mod drv_head;
 mod drv_hostile;
@@ -62,6 +63,7 @@ fn main() {
         "c15" => extra = drv_redir::c15(&o, &mut t),
         "c12" => extra = drv_hostile::c12(&o, &mut t),
         "c01" => extra = drv_c01::c01(&o, &mut t),
+        "x01" => extra = drv_call::x01(&o, &mut t),
         "c02" => extra = drv_req::c02(&o, &mut t),
         "c16" => extra = drv_req::c16(&o, &mut t),
         "c17" => extra = drv_req::c17(&o, &mut t),
